@@ -400,3 +400,31 @@ MUTANTS["C11"] = [
     M("twin-newline-via-local", OUT, 'self._stream.write(to_str(string.rstrip("\\n") + "\\n"))', 'line = string.rstrip("\\n") + "\\n"\n            self._stream.write(to_str(line))', twin=True),
     M("twin-kw-order", OUT, "self.write(string, flags=flags, new_line=True)", "self.write(string, new_line=True, flags=flags)", twin=True),
 ]
+
+PBR = "src/clikit/ui/components/progress_bar.py"
+
+MUTANTS["C15"] = [
+    M("control-code-on-plain-arm", SEC, "        if not self.supports_ansi() and not self._formatter.force_ansi():\n            return super(SectionOutput, self).write(",
+      "        if not self.supports_ansi() and not self._formatter.force_ansi():\n            self._pop_stream_content_until_current_section()\n            return super(SectionOutput, self).write(", expect="C15-R1"),
+    M("clear-unguarded", SEC, "        if (\n            not self._content\n            or not self.supports_ansi()\n            and not self._formatter.force_ansi()\n        ):\n            return\n", "        if not self._content:\n            return\n", expect="C15-R1"),
+    M("reversed-dropped", SEC, 'return "".join(reversed(erased_content))', 'return "".join(erased_content)', expect="C15-R3"),
+    M("append-instead-of-insert", SEC, "        sections.insert(0, self)", "        sections.append(self)", expect="C15-R3"),
+    M("f9-regression", SEC, "            return super(SectionOutput, self).write(\n                string, flags=flags, new_line=new_line, with_indent=with_indent\n            )", "            return super(SectionOutput, self).write(string, flags=flags)", expect="C15-R2"),
+    M("scan-does-not-stop-at-self", SEC, "            if section is self:\n                break\n\n", "", expect="C15-R3"),
+    M("twin-guard-positive-form", SEC, "        if not self.supports_ansi() and not self._formatter.force_ansi():\n            return super(SectionOutput, self).write(\n                string, flags=flags, new_line=new_line, with_indent=with_indent\n            )\n",
+      "        decorated = self.supports_ansi() or self._formatter.force_ansi()\n        if not (self.supports_ansi() or self._formatter.force_ansi()):\n            return super(SectionOutput, self).write(\n                string, flags=flags, new_line=new_line, with_indent=with_indent\n            )\n", twin=True),
+]
+
+MUTANTS["C16"] = [
+    M("throttle-before-max", PBR,
+      "        # Draw regardless of other limits\n        if step == self._max:\n            self.display()\n\n            return\n\n        # Throttling\n        if time_interval < self._min_seconds_between_redraws:\n            return\n",
+      "        # Throttling\n        if time_interval < self._min_seconds_between_redraws:\n            return\n\n        # Draw regardless of other limits\n        if step == self._max:\n            self.display()\n\n            return\n", expect="C16-R3"),
+    M("carriage-return-unconditional", PBR, "        if self._should_overwrite:\n            if isinstance(self._io, SectionOutput):", "        self._io.write(\"\\x0D\")\n        if self._should_overwrite:\n            if isinstance(self._io, SectionOutput):", expect="C16-R1"),
+    M("finish-without-set-progress", PBR, "        self.set_progress(self._max)\n\n    def display", "        self.display()\n\n    def display", expect="C16-R4"),
+    M("direct-stream-write", PBR, '        self._io.write("\\n".join(lines))\n        self._io.flush()', '        self._io.stream.write("\\n".join(lines))\n        self._io.flush()', expect="C16-R2"),
+    M("overwrite-kept-on-plain", PBR, "            # Disable overwrite when output does not support ANSI codes.\n            self._should_overwrite = False\n", "            # Disable overwrite when output does not support ANSI codes.\n", expect="C16-R1"),
+    M("display-ignores-quiet", PBR, "        if self._io.is_quiet():\n            return\n\n        if self._format is None:\n            self._set_real_format(\n                self._internal_format or self._determine_best_format()\n            )\n\n        self._overwrite(\n            re.sub(",
+      "        if self._format is None:\n            self._set_real_format(\n                self._internal_format or self._determine_best_format()\n            )\n\n        self._overwrite(\n            re.sub(", expect="C16-R2"),
+    M("finish-early-return-too-wide", PBR, "        if self._step == self._max and not self._should_overwrite:\n            return\n", "        if self._step == self._max:\n            return\n", expect="C16-R4"),
+    M("twin-max-test-swapped", PBR, "        if step == self._max:\n            self.display()\n\n            return\n", "        if self._max == step:\n            self.display()\n            return\n", twin=True),
+]
